@@ -6,6 +6,7 @@ import (
 	"io"
 	"sort"
 	"strings"
+	"time"
 
 	"github.com/anishathalye/porcupine"
 	"google.golang.org/grpc"
@@ -15,6 +16,7 @@ import (
 	"google.golang.org/protobuf/proto"
 	"google.golang.org/protobuf/reflect/protoreflect"
 	"google.golang.org/protobuf/reflect/protoregistry"
+	"google.golang.org/protobuf/types/known/durationpb"
 
 	"github.com/smart-core-os/sc-golang/pkg/middleware/name"
 	"github.com/smart-core-os/sc-golang/pkg/router"
@@ -70,6 +72,13 @@ func (p *prng) n(k int) int {
 // fillMessage sets fields of m to small pseudo-random values (scalars, enums, nested messages, short lists).
 func fillMessage(m protoreflect.Message, p *prng, depth int) {
 	fds := m.Descriptor().Fields()
+	if m.Descriptor().FullName() == "smartcore.types.Tween" && p.n(4) != 0 {
+		// mostly the one shape a server accepts as "do this over time": a positive total duration and nothing else
+		if fd := fds.ByName("total_duration"); fd != nil {
+			m.Set(fd, protoreflect.ValueOfMessage(durationpb.New(time.Duration(100+p.n(3000))*time.Millisecond).ProtoReflect()))
+			return
+		}
+	}
 	for i := 0; i < fds.Len(); i++ {
 		fd := fds.Get(i)
 		if p.n(3) == 0 {
